@@ -9,12 +9,15 @@ MANIFEST = {
     "C20": {
         "technique": "Lean 4 proof (checked-memory model of Process::Arguments refined to a declarative getopt_long-convention parser; "
                      "model of splitCommandLine refined to a reference tokenizer with termination on every buffer; argv/environment handed "
-                     "to execvpe; Process object and environment state machines) + differential correspondence model vs real Process.cpp "
+                     "to execvpe; Process object and environment state machines; abstract kernel model: descriptor tables of open(), pipe protocol) "
+                     "+ differential correspondence model vs real Process.cpp "
                      "+ tests against the real kernel with a helper child",
         "text": "Theorems over all option tables and argument vectors (result sequence = getopt conventions, no read outside the argument "
                 "strings / option names, termination), all command lines (tokenizer refinement, quoting round trip, termination on every "
                 "buffer), all executable/argument/environment inputs (what reaches execvpe), all call histories of a Process object "
-                "(idle => no descriptor held) and the environment setters/getters; the model is tied to the current Process.cpp on every "
+                "(idle => no descriptor held) and the environment setters/getters; over an explicit abstract kernel model: who holds which pipe end "
+                "after open() (also when vfork fails) and deadlock-free, terminating, intact delivery of stdin/stdout/stderr data and the exit "
+                "code for every pipe capacity, chunking and schedule; the model is tied to the current Process.cpp on every "
                 "run by executing identical op lines on both (exhaustive small scopes, exactly sized heap buffers under ASan, watchdog) and "
                 "by an independent Python reference; exec, pipes, exit codes 0..255 and payload delivery around the pipe capacity are run "
                 "against the real kernel.",
@@ -25,8 +28,10 @@ MANIFEST = {
                 "process_delivery_partial, OPEN block in Props.lean): vfork/execvpe/pipe/dup2/waitpid/select/read/write are the kernel's - "
                 "the model ends at 'what is passed to execvpe and which pipes are requested'; what the child observes, exit codes, "
                 "end-of-file and payload delivery are tested (every start/open form x redirection mask x environment; masks x sizes "
-                "0,1,65535,65536,65537,1 MiB; exit codes), not proved.  The '0 = closed' descriptor bookkeeping assumes pipe() never "
-                "returns descriptor 0.  The model mirrors the code repaired by fixes/args/0001-0006.",
+                "0,1,65535,65536,65537,1 MiB; exit codes; descriptor tables of parent and child read through /proc), not proved; the theorems "
+                "open_pipe_ends_exact / pipe_protocol_delivers hold in the abstract kernel model of Kernel.lean (FIFO pipes with partial "
+                "transfers, end-of-file when no write end is left, dup2/close/vfork on descriptor tables), whose adequacy for Linux is an assumption.  The '0 = closed' descriptor bookkeeping assumes pipe() never "
+                "returns descriptor 0.  The model mirrors the code repaired by fixes/args/0001-0007.",
         "design_ref": "DESIGN.md 3/C20",
     }
 }
@@ -538,7 +543,8 @@ def histories_for(ctx):
     ctx.cov["open_statements"] = [
         "run-time delivery (the child observes argv/environ as given, join returns its exit code, redirected bytes arrive intact up to "
         "end-of-file): needs a kernel model; proved part = process_delivery_partial / argv_env_exact* (what is passed to execvpe, which pipes "
-        "are requested); the rest is tested against the real kernel by the run/io/exit/p/killtest streams"]
+        "are requested), open_pipe_ends_exact and pipe_protocol_delivers (over the abstract kernel model of Kernel.lean); that Linux behaves like "
+        "that model and that execvpe hands argv/envp on unchanged is tested against the real kernel by the run/io/exit/execfail/p/killtest/fdtable streams"]
     ctx.cov["exhaustive"] = True
     ctx.cov["exhaustive_scope"] = (f"argv words<={AMAX[quick]} over {len(WORDS)}-word alphabet: {len(ea)}; command lines <= {SMAX[quick]} "
                                    f"symbols over 4: {len(es)}; redirection masks 8 x sizes {len(SIZES)}; exit codes: {len(xl)}")
@@ -551,6 +557,8 @@ ASSUMPTIONS = [
     "Map<String,String> iterates in ascending key order (property C01)",
     "vfork/execvpe/pipe/dup2/waitpid/select/read/write behave as documented by POSIX/Linux; pipe() does not return descriptor 0; these run-time parts are tested against the real kernel, not proved",
     "allocation (alloca/new) never fails",
+    "abstract kernel model (Kernel.lean): a pipe is a bounded FIFO with partial reads/writes and end-of-file when no write end is left; "
+    "pipe() returns unused descriptors > 2; vfork copies the descriptor table; its adequacy for Linux is assumed and cross-checked by the io/fdtable streams",
 ]
 
 
